@@ -320,4 +320,58 @@ def codeConfig (cap : Nat) (byAddr carriesSource : Bool) (upstream : Option (IP 
     insertFirst := !codeRecvOK, upstream := upstream,
     packerOf := packerOfShared SSV.Gen.C11.packerShared }
 
+
+/-! ### recvmmsg/sendmmsg relay loops: index bookkeeping between received batch, kept subset and sent vector
+(service/udp_nat_mmsg.go, service/udp_session_mmsg.go: relayNatConnToServerConnSendmmsg, relayServerConnToNatConnSendmmsg) -/
+
+/-- which variable indexes the send-side vectors (`siovec[·]`, `iovec[·]`, `namevec[·]`, …) in the keep path -/
+inductive FillIdx where
+  | counter     -- `ns` / `count`: number of messages kept so far
+  | recvIndex   -- `i`: position of the message in the received batch
+deriving Repr, DecidableEq
+
+/-- the per-message loop of one batch. `rx`: the received (dequeued) messages in order, each re-packed
+(`some x` = its own header + payload, ready to send) or dropped (`none`: truncated, unparsable, too big, pack error);
+`i` = index in the batch, `ns` = kept so far, `slots` = the send vector, still holding what EARLIER batches put there. -/
+def batchLoop {α : Type} (fill : FillIdx) : List (Option α) → Nat → Nat → List α → Nat × List α
+  | [], _, ns, slots => (ns, slots)
+  | none :: rest, i, ns, slots => batchLoop fill rest (i + 1) ns slots
+  | some x :: rest, i, ns, slots =>
+    batchLoop fill rest (i + 1) (ns + 1) (slots.set (match fill with | .counter => ns | .recvIndex => i) x)
+
+/-- one batch: (`var ns int`; the loop; `WriteMsgs(smsgvec[:ns])`) ↦ (send vector afterwards, messages handed to sendmmsg) -/
+def batchSend {α : Type} (fill : FillIdx) (slots : List α) (rx : List (Option α)) : List α × List α :=
+  let r := batchLoop fill rx 0 0 slots
+  (r.2, r.2.take r.1)
+
+def kvAll (kv : List (String × String)) (k : String) : List String := (kv.filter (·.1 == k)).map (·.2)
+
+/-- the fill mode a regenerated batch program uses (`none`: an index expression that is neither) -/
+def progFill (kv : List (String × String)) : Option FillIdx :=
+  let counter := (kvAll kv "counter").headD ""
+  let iter := (kvAll kv "iter").headD ""
+  let fills := kvAll kv "fill"
+  if fills.isEmpty || counter == "" then none
+  else if fills.all (· == counter) then some .counter
+  else if iter != "" && fills.all (· == iter) then some .recvIndex
+  else none
+
+/-- everything else the batch theorem relies on: the counter is declared inside the batch loop, it is incremented
+once, after the fills; the slice sent ends at the counter; message `i` of the sent vector points at slot `i` of the
+iovec / name vectors; a downlink reads message `i` from buffer `i`. -/
+def progShapeOK (kv : List (String × String)) : Bool :=
+  let counter := (kvAll kv "counter").headD ""
+  let iter := (kvAll kv "iter").headD ""
+  let keep := kv.filter (fun e => e.1 == "fill" || e.1 == "inc")
+  counter != "" &&
+  kvAll kv "counterScope" == ["batch"] &&
+  keep.getLast? == some ("inc", counter) && keep.dropLast.all (·.1 == "fill") && !keep.dropLast.isEmpty &&
+  kvAll kv "sendHi" == [counter] &&
+  (kvAll kv "badlink").isEmpty && !(kvAll kv "link").isEmpty &&
+  (kvAll kv "buf").all (· == iter)
+
+def codeBatchOK : Bool :=
+  SSV.Gen.C11.batchProgs.length == 4 &&
+  SSV.Gen.C11.batchProgs.all (fun p => progFill p.2 == some .counter && progShapeOK p.2)
+
 end SSV.Relay
